@@ -162,12 +162,14 @@ void summary_if_multi(vf::Ctx&, Result const&, std::string const&)
 }
 
 template <typename T, typename R>
-void run_layer(vf::Ctx& c, vf::RunCfg<T> const& cfg, std::vector<std::size_t> const& calls, T target, bool& unequal)
+void run_layer(vf::Ctx& c, vf::RunCfg<T> const& cfg, std::vector<std::size_t> const& calls, T target, bool& unequal, bool unwritable)
 {
     using Chk = typename R::Chk;
     static hep::callback_mode const modes[] = {hep::callback_mode::silent, hep::callback_mode::silent_and_write_chkpt, hep::callback_mode::verbose,
         hep::callback_mode::verbose_and_write_chkpt};
-    std::string const file = scratch_file();
+    // an unwritable checkpoint path (missing directory) must not change or break the run either: the writing modes
+    // then simply cannot leave a file
+    std::string const file = unwritable ? std::string("/nonexistent-directory-for-c20/run.chkpt") : scratch_file();
     std::vector<std::string> final_text(4);
     std::vector<std::vector<std::string>> seen(4);
     for (int m = 0; m != 4; ++m)
@@ -192,7 +194,8 @@ void run_layer(vf::Ctx& c, vf::RunCfg<T> const& cfg, std::vector<std::size_t> co
         {
             VF_CHECK(c, prints == !printed.empty(), "C20:printing", "mode " << m << (printed.empty() ? " printed nothing" : " printed although silent"));
             std::ifstream in(file);
-            if (writes)
+            if (unwritable) { VF_CHECK(c, !in.good(), "C20:unexpected-file", "a file appeared at an unwritable path"); }
+            else if (writes)
             {
                 std::stringstream ss;
                 ss << in.rdbuf();
@@ -268,12 +271,14 @@ void run_t(vf::Ctx& c)
     T const target = t.pick(3) == 0 ? static_cast<T>(std::pow(10.0L, -2.0L * t.unit())) : T(0);
     c.desc << vf::type_name<T>::get() << " run modes x4 calls=" << vf::show(calls) << " target=" << vf::show(target) << " pattern=" << how << ' ' << cfg.describe();
     bool unequal = false;
+    bool const unwritable = t.pick(5) == 0;
+    if (unwritable) { c.label("unwritable-checkpoint-path"); c.desc << " unwritable-path"; }
     using E = std::mt19937;
     switch (cfg.kind)
     {
-    case vf::PLAIN: run_layer<T, vf::Plain<T, E>>(c, cfg, calls, target, unequal); break;
-    case vf::VEGAS: run_layer<T, vf::Vegas<T, E>>(c, cfg, calls, target, unequal); break;
-    default: run_layer<T, vf::Multi<T, E>>(c, cfg, calls, target, unequal); break;
+    case vf::PLAIN: run_layer<T, vf::Plain<T, E>>(c, cfg, calls, target, unequal, unwritable); break;
+    case vf::VEGAS: run_layer<T, vf::Vegas<T, E>>(c, cfg, calls, target, unequal, unwritable); break;
+    default: run_layer<T, vf::Multi<T, E>>(c, cfg, calls, target, unequal, unwritable); break;
     }
     c.label("run-layer");
     if (cfg.fn.family == 5 || cfg.fn.family == 3 || cfg.fn.family == 6 || cfg.fn.family == 8) { c.label("degenerate-integrand"); }
